@@ -14,8 +14,12 @@ Proof.
   - intros Hc. right. split; [|done]. intros E. destruct Hc as (o & Ho & _). congruence.
 Qed.
 
-Lemma TR_used X cfg s t u : TR X cfg s t → TR X cfg (s <| st_used := u |>) t.
-Proof. intros [H1 H2 H3 H4 H5]. by split. Qed.
+Lemma TR_used X cfg s t k : TR X cfg s t → TR X cfg (s <| st_used := k :: st_used s |>) t.
+Proof.
+  intros [H1 H2 H3 H4 (K1 & K2 & K3) H6]. split; try done. split_and!; simpl; [|  |done].
+  - intros k' ?. right. by apply K1.
+  - intros k' ?. right. by apply K2.
+Qed.
 
 Ltac flagsolve := simpl; rewrite ?bool_decide_eq_true_2 by done; simpl; rewrite ?flag_true by done; done.
 
@@ -27,10 +31,11 @@ Section acquire.
     Inv cfg s → st_shut s = false → (∀ n, ¬ livel (st_locks s) n key) →
     opt_neg lt = false → (blocking = true → opt_neg wt = false) →
     TR X cfg s t → MI cfg s (t_mem t) →
+    key ∈ st_used s → key ∉ t_keys t → (∀ w, w ∈ st_waiters s → w_key w ≠ key) →
     srv_acquire cfg blocking wid sid name key (default 1 size) lt wt s = (s', o) →
     TR X cfg s' (t_acquire cfg i blocking wid (Some sid) name size lt wt o t).
   Proof.
-    intros HI Hsh Hfresh Hlt Hwt HT HMI Ha. set (sz := default 1 size) in *.
+    intros HI Hsh Hfresh Hlt Hwt HT HMI Hku Hkt Hkw Ha. destruct (tr_keys _ _ _ _ HT) as (K1 & K2 & K3). set (sz := default 1 size) in *.
     pose proof (tr_holds _ _ _ _ HT) as HH.
     assert (expected_refusal blocking (Some sid) name size lt wt t =
             if bool_decide (name = []) then Some ESrvEmptyName else
@@ -89,7 +94,8 @@ Section acquire.
     - (* granted *)
       injection Ha as <- <-. simpl. rewrite ?flag_true by done. rewrite Eexp'. fold sz. rewrite Hmem_ok. cbn [flag].
       apply andb_true_iff in Hcan as [Hc1%bool_decide_eq_true Hc2].
-      rewrite flag_true by (rewrite Hcount; lia). simpl.
+      rewrite (flag_true _ "C01:grant-over-capacity") by (rewrite Hcount; lia).
+      rewrite flag_true by (by rewrite bool_decide_eq_false_2). simpl.
       unfold add_key. cbn [st_locks set]. rewrite lookup_insert.
       split; simpl.
       + rewrite rg_now. apply (tr_now _ _ _ _ HT).
@@ -111,6 +117,10 @@ Section acquire.
              rewrite lookup_insert_ne; [done|]. intros [En Ek]%tkey_inj. apply (Hfresh name).
              destruct (hr_tab _ _ _ _ _ _ HH h Hh) as [Hi _]. apply intab_livel in Hi. simpl in Hi. by rewrite En, Ek.
       + rewrite rg_waiters. simpl. apply (tr_waiters _ _ _ _ HT).
+      + unfold KI. rewrite rg_used, rg_waiters. simpl. split_and!.
+        * intros k' [->|Hk']%elem_of_cons; [done|by apply K1].
+        * exact K2.
+        * intros w Hw [E|Hk']%elem_of_cons; [by apply (Hkw w)|by apply (K3 w)].
       + intros j tag Hj. simpl in Hj. by apply (tr_fail _ _ _ _ HT).
     - assert ((count_name name t <? sz) && bool_decide (waiters_on name t = []) = false) as Hfree.
       { rewrite Hcount, Hwon, <- Hobsz. rewrite <- Hcan. f_equal. destruct (Z.ltb_spec (Z.of_nat (length (lo_keys ob))) (lo_size ob));
@@ -118,12 +128,14 @@ Section acquire.
       destruct blocking.
       + (* parked *)
         injection Ha as <- <-. simpl. rewrite ?flag_true by done. rewrite Eexp'. fold sz. rewrite Hmem_ok. cbn [flag]. rewrite Hfree. simpl.
-        split; simpl; [apply (tr_now _ _ _ _ HT)|apply (tr_pending _ _ _ _ HT)|exact HH1| |apply (tr_fail _ _ _ _ HT)].
-        apply Forall2_app; [apply (tr_waiters _ _ _ _ HT)|]. constructor; [|constructor].
-        unfold WR, wait_dl. simpl. rewrite (tr_now _ _ _ _ HT). done.
+        split; simpl; [apply (tr_now _ _ _ _ HT)|apply (tr_pending _ _ _ _ HT)|exact HH1| | |apply (tr_fail _ _ _ _ HT)].
+        * apply Forall2_app; [apply (tr_waiters _ _ _ _ HT)|]. constructor; [|constructor].
+          unfold WR, wait_dl. simpl. rewrite (tr_now _ _ _ _ HT). done.
+        * split_and!; simpl; [exact K1|exact K2|].
+          intros w [Hw| ->%elem_of_list_singleton]%elem_of_app; [by apply K3|done].
       + (* refused: busy *)
         injection Ha as <- <-. simpl. rewrite ?flag_true by done. rewrite Eexp'. fold sz. rewrite Hmem_ok. cbn [flag]. rewrite Hfree. simpl.
-        split; simpl; [apply (tr_now _ _ _ _ HT)|apply (tr_pending _ _ _ _ HT)|exact HH1|apply (tr_waiters _ _ _ _ HT)|apply (tr_fail _ _ _ _ HT)].
+        split; simpl; [apply (tr_now _ _ _ _ HT)|apply (tr_pending _ _ _ _ HT)|exact HH1|apply (tr_waiters _ _ _ _ HT)|done|apply (tr_fail _ _ _ _ HT)].
   Qed.
 
   Lemma Inv_used s key : Inv cfg s → Inv cfg (s <| st_used := key :: st_used s |>).
@@ -149,6 +161,9 @@ Section acquire.
     - by apply Inv_used.
     - exact (fresh_not_live s key HI Hk).
     - by apply TR_used.
+    - simpl. left.
+    - intros Hin. apply Hk. destruct (tr_keys _ _ _ _ HT) as (K1 & _). by apply K1.
+    - intros w Hw E. apply Hk. rewrite <- E. by apply (inv_used_waiters _ _ HI w Hw).
   Qed.
 
   Lemma track_lock_ok wid sid name size lt wt key s s' o t :
@@ -166,5 +181,8 @@ Section acquire.
     - by apply Inv_used.
     - exact (fresh_not_live s key HI Hk).
     - by apply TR_used.
+    - simpl. left.
+    - intros Hin. apply Hk. destruct (tr_keys _ _ _ _ HT) as (K1 & _). by apply K1.
+    - intros w Hw E. apply Hk. rewrite <- E. by apply (inv_used_waiters _ _ HI w Hw).
   Qed.
 End acquire.
